@@ -66,5 +66,51 @@ UNIT = {
                     ('stashing', 'final(self).stashing()')]),
         fn('evaluate_invocable', ret='r',
            ensures=[('ok_iff_deployed', 'r is Ok <==> self.model_evaluators_by_name@.contains_key(skey(model_name@))')]),
+        fn('deploy', ret='r', props=['C17', 'C12'], auto_props=['C17', 'C12'],
+           requires=[('wf', 'old(self).wf()')],
+           loops=1,
+           loop_specs={0: {
+               'iter_name': 'it',
+               'invariant': [
+                   ('seq', 'it.seq() =~= old(self).definitions@.map_values(|a: Arc<Definitions>| &a)'),
+                   ('frame', 'self.definitions == old(self).definitions && self.definitions_by_namespace == old(self).definitions_by_namespace && self.definitions_by_name == old(self).definitions_by_name'),
+                   ('built_so_far', 'forall |k: String| #[trigger] self.model_evaluators_by_name@.contains_key(k) <==> built_name(old(self).definitions@, it.index@ as int, k@)'),
+               ],
+               'body_prefix': 'broadcast use vstd::std_specs::hash::group_hash_axioms;\nbroadcast use group_string_keys;\nproof { axiom_string_key_model(); assert(*definitions == old(self).definitions@[it.index@ as int]); }\nlet ghost before = self.model_evaluators_by_name@;',
+               'body_suffix': 'proof { lemma_deploy_step(old(self).definitions@, it.index@ as int, before, self.model_evaluators_by_name@); }',
+           }},
+           splices=[{'id': 'deploy_wf', 'op': 'before', 'anchor': 'Ok(())',
+                     'text': 'proof { lemma_deploy_wf(*old(self), *self); }'}],
+           ensures=[('wf', 'final(self).wf()'),
+                    ('ok', 'r is Ok'),
+                    ('frame', 'final(self).definitions == old(self).definitions && final(self).definitions_by_namespace == old(self).definitions_by_namespace && final(self).definitions_by_name == old(self).definitions_by_name'),
+                    ('deploys_exactly_buildable', 'forall |k: String| #[trigger] final(self).model_evaluators_by_name@.contains_key(k) <==> built_name(old(self).definitions@, old(self).definitions@.len() as int, k@)')]),
+        {'kind': 'text', 'note': 'assumed-contract', 'text': """impl Workspace {
+  // load_and_deploy_models walks a directory (WalkDir, std::fs) and calls only add() and deploy();
+  // file-system code is outside the verifier's reach: its effect on the invariant is ASSUMED.
+  #[verifier::external_body]
+  pub fn load_and_deploy_models(&mut self, dir: &PathBuf) -> (r: usize)
+    requires old(self).wf() ensures final(self).wf() { unimplemented!() }
+}"""},
+        fn('new', ret='r', rewrites=[('R6', ['println'])],
+           ensures=[('wf', 'r.wf()'),
+                    ('empty_without_dir', 'opt_dir is None ==> r.view().len() == 0 && r.stashing()')]),
     ],
 }
+
+NOT_DECIDED = {
+    'C17': [
+        'load_and_deploy_models (directory walk, file reads): assumed to preserve the invariant; it only calls add() and deploy()',
+        'server/src/server.rs handlers that call these operations (C18)',
+        'that ModelEvaluator::new fails exactly for models that cannot be built (builds() is uninterpreted)',
+    ],
+    'C12': [
+        'only the clause "a model that fails to build does not prevent the others from being deployed" (Workspace::deploy) is decided here',
+    ],
+}
+ASSUMPTIONS = [
+    'A-std: vstd HashMap/Vec/Arc specifications; added axioms for HashMap<String,_> (String key model, &str borrowed-key lookups) and Vec::retain',
+    'Definitions::namespace/name and ModelEvaluator::new/evaluate_invocable are opaque (uninterpreted namespace, name, builds)',
+    'rewrite rules R6 (println! erased), R7 (field visibility), R10 (retain closure given an explicit ensures, verified against its body)',
+    'the induction over operation histories (every public operation requires and re-establishes wf) is the standard meta-argument, not a Verus theorem',
+]
